@@ -52,7 +52,7 @@ Print Assumptions c05_unknown_neutral.
 From Coq Require Import List String ZArith NArith Bool. From Bexpr Require Import Base Strconv Ast Univ Eval Api Dump GoTables TableTie TieNotPresent. Import ListNotations.
 
 Theorem not_present_table :
-  forall op : matchop, assoc (mop_go op) go_not_present = Some (bool_go (disposition op)).
+  forall op : matchop, table_or_default (mop_go op) go_not_present = Some (bool_go (disposition op)).
 Proof. exact TieNotPresent.not_present_table. Qed.
 Print Assumptions not_present_table.
 
